@@ -204,7 +204,7 @@ Proof. induction l as [|x l IH]; intros i; cbn [number_from map snd]; [reflexivi
 
 (** ** C19 core: what one dataset's share of a batch or transaction does to the distinct-id count *)
 Theorem cbatch_spec fl dm clk t ents d kn :
-  winv clk d -> clk < t -> incl (dids d) kn ->
+  winv clk d -> clk <= t -> incl (dids d) kn ->
   let '(d', kn', ni) := cbatch fl dm t ents d kn in
   d' = store_batch_ds fl dm t ents d
   /\ winv t d'
